@@ -82,6 +82,9 @@ class RangeFn:
 
     def run(self):
         n = self.node
+        from .srctrans import static_local
+        if static_local(TU.body_of(n)):
+            raise Untranslatable("static local variable")
         tparams = [c["name"] for c in self.tmpl.get("inner", []) if c.get("kind") == "TemplateTypeParmDecl" and c.get("name")]
         params, iters = [], []
         for c in n.get("inner", []):
